@@ -481,3 +481,40 @@ package authenticode
 //@   before call prehashMsiDir(c, root, d): assert @metadata_of_the_whole_document_from_its_root c == cdf && root != nil
 //@   on call prehashMsiDir(_, _, _) ret (e): ok = (e == nil)
 //@   ensures @a_digest_only_when_every_entry_was_hashed ret1 == nil ==> ok
+//@
+//@ func (*PEDigest).Sign
+//@   property C05 C03
+//@   standalone
+//@   requires pd != nil && cert != nil
+//@   requires pd.markers != nil && 0 <= pd.OrigSize && pd.OrigSize <= pd.CertStart && pd.CertStart <= pd.OrigSize + 7 && pd.CertStart <= 1099511627776
+//@   requires 0 <= pd.markers.posDDCert && pd.markers.posDDCert <= 8589934592 && 0 <= pd.markers.certSize && pd.markers.certSize <= 4294967295
+//@   ghost tsG *pkcs9.TimestampedSignature = nil
+//@   before call (*PEDigest).GetIndirect(d): assert @the_digest_of_this_image_is_signed d == pd
+//@   before call signIndirect(_, ind, h, c, p): assert @signed_with_the_digest_algorithm_of_the_imprint_and_the_callers_certificate h == pd.Hash && c == cert && p == params
+//@   on call signIndirect(_, _, _, _, _) ret (t, e): tsG = ite(e == nil, t, nil)
+//@   before call (*PEDigest).MakePatch(d, raw): assert @the_new_signature_is_what_goes_into_the_certificate_table d == pd && tsG != nil && sameslice(raw, tsG.Raw)
+//@   ensures @signature_returned_is_the_one_patched_in ret2 == nil ==> ret1 == tsG && tsG != nil
+//@
+//@ func SignCabImprint
+//@   property C05 C03
+//@   standalone
+//@   requires digest != nil && cert != nil
+//@   requires digest.Cabinet != nil && len(digest.Patched) >= 52 && len(digest.Patched) <= 4294967295
+//@   ghost tsG *pkcs9.TimestampedSignature = nil
+//@   before call makePeIndirect(imp, h, oid): assert @cabinet_imprint_under_the_cabinet_data_type sameslice(imp, digest.Imprint) && h == digest.HashFunc && sameslice(oid, OidSpcCabImageData)
+//@   before call signIndirect(_, ind, h, c, p): assert @signed_with_the_digest_algorithm_of_the_imprint_and_the_callers_certificate h == digest.HashFunc && c == cert && p == params
+//@   on call signIndirect(_, _, _, _, _) ret (t, e): tsG = ite(e == nil, t, nil)
+//@   before call (*cabfile.CabinetDigest).MakePatch(d, raw): assert @the_new_signature_is_what_goes_into_the_cabinet d == digest && tsG != nil && sameslice(raw, tsG.Raw)
+//@   ensures @signature_returned_is_the_one_patched_in ret2 == nil ==> ret1 == tsG && tsG != nil
+//@
+//@ func (*PsDigest).Sign
+//@   property C05 C03
+//@   standalone
+//@   requires pd != nil && cert != nil
+//@   requires 0 <= pd.TextSize && 0 <= pd.SigSize && pd.TextSize + pd.SigSize <= 4611686018427387904
+//@   requires @comment_delimiters_of_the_style_table_are_short len(psStyles[pd.SigStyle].start) <= 16 && len(psStyles[pd.SigStyle].end) <= 16
+//@   ghost tsG *pkcs9.TimestampedSignature = nil
+//@   before call SignSip(_, imp, h, sip, c, p): assert @script_imprint_under_the_powershell_sip sameslice(imp, pd.Imprint) && h == pd.HashFunc && c == cert && p == params && sip == psSipInfo
+//@   on call SignSip(_, _, _, _, _, _) ret (t, e): tsG = ite(e == nil, t, nil)
+//@   before call (*PsDigest).MakePatch(d, raw): assert @the_new_signature_is_what_goes_into_the_script d == pd && tsG != nil && sameslice(raw, tsG.Raw)
+//@   ensures @signature_returned_is_the_one_patched_in ret2 == nil ==> ret1 == tsG && tsG != nil
